@@ -249,6 +249,7 @@ def run(sc) -> RunResult:
     from cspuz import expr as E
 
     res = RunResult()
+    core.fresh_z3_context()
     res.log("start", ID, sc.get("seed"))
     ctx = peers.SimContext(res, policy={"name": "lexmin"})
     Sim = peers.make_sim_backend(ctx, E)
